@@ -449,5 +449,11 @@ def run(ctx: Ctx, rep: Report, tier: str) -> None:
     sub = Report("C13")
     expansion_covers_members(ctx, sub)
     rep.absorb(sub, "R13.5")
+    # R13.6 the network lists are those of the objects as they are now: every memo is reset by every writer (C05 R05.1)
+    from .c05 import memo_rules
+
+    sub = Report("C13")
+    memo_rules(ctx, sub, rid="R05.1")
+    rep.absorb(sub, "R13.6")
     rep.rule("R13.3")
     rep.floor(6, "elementary tests and loops of the containment operators")
